@@ -724,7 +724,8 @@ func propC15(c *Ctx) {
 	}
 	win := bs[start : start+60]
 	// a window that really spans day, month, year and leap boundaries
-	win = append(append([][3]int{}, win...), [3]int{2023, 12, 31}, [3]int{2024, 1, 1}, [3]int{2024, 2, 28}, [3]int{2024, 2, 29}, [3]int{2024, 3, 1}, [3]int{2023, 2, 28}, [3]int{2023, 3, 1})
+	// the zero value of Date (0001-01-01) and its neighbours must behave like any other bound
+	win = append(append([][3]int{}, win...), [3]int{1, 1, 1}, [3]int{1, 1, 2}, [3]int{0, 12, 31}, [3]int{0, 1, 1}, [3]int{9999, 12, 31}, [3]int{2023, 12, 31}, [3]int{2024, 1, 1}, [3]int{2024, 2, 28}, [3]int{2024, 2, 29}, [3]int{2024, 3, 1}, [3]int{2023, 2, 28}, [3]int{2023, 3, 1})
 	stepF := 3
 	if c.Thorough {
 		stepF = 1
@@ -788,6 +789,14 @@ func propC15(c *Ctx) {
 		a, b, p := rd(), rd(), rd()
 		if i%3 == 0 {
 			b = [3]int{a[0], a[1], 1 + c.R.Intn(dim(a[0], a[1]))}
+		}
+		switch i % 37 {
+		case 0:
+			a = [3]int{1, 1, 1}
+		case 1:
+			b = [3]int{1, 1, 1}
+		case 2:
+			p = [3]int{1, 1, 1}
 		}
 		if i%4 == 0 {
 			p = [3]int{a[0], a[1], 1 + c.R.Intn(dim(a[0], a[1]))}
